@@ -2144,6 +2144,8 @@ static void upipe_h265f_output_au(struct upipe *upipe, struct uref *uref,
     }
 
     if (ubase_check(uref_pic_get_key(uref)) &&
+        upipe_h265f->active_vps != -1 && upipe_h265f->active_sps != -1 &&
+        upipe_h265f->active_pps != -1 &&
         upipe_h265f_find_annexb_nal(upipe, uref, H265NAL_TYPE_VPS) == -1) {
         upipe_verbose(upipe, "prepending VPS, SPS and PPS on keyframe");
 
